@@ -1,6 +1,7 @@
 import ComposeVerif.Props.C12
 import ComposeVerif.Props.C12Origin
 import ComposeVerif.Model.Pipeline
+import ComposeVerif.Lemmas.PathsRows
 import ComposeVerif.Lemmas.AuditCmd
 /-!
 # C12 — the whole pipeline against the specification (round 5)
@@ -111,6 +112,30 @@ theorem loaded_value_exists (k : Nat) (cfg : Cfg) (isDir : Str → Bool) (ps : L
   rw [include_chain_origin k cfg isDir ps s hW hok hhome]
   exact resolveKind_total k _ s
 
+/-! ## round 6 — every path attribute of a resolved tree is absolute or exempt (tree level) -/
+
+/-- **every resolver row of the output is an output of its resolver**: the walker leaves no node that matches a row of
+the table unresolved, however deep it sits and whatever surrounds it (the complement of `frame`) -/
+theorem resolve_rows_are_resolved (cfg : Cfg) (v v' : Val) (h : resolve cfg v = .ok v') :
+    RowsAre CV.Gen.resolvers (ImageOf cfg) TPath.root v' :=
+  walk_rows _ cfg _ v v' h
+
+/-- **after resolution against an absolute base every string at a row of `absPath` (env files, label files),
+`absContextPath` (build contexts, additional contexts) or `maybeUnixPath` (secret / config files, bind devices) is
+absolute — or empty, or URL-like (contexts), or Windows-absolute (secret / config files)**: the first sentence of the
+property, for every tree -/
+theorem resolve_rows_abs_or_exempt (cfg : Cfg) (hwd : isAbs cfg.wd = true) (v v' : Val) (h : resolve cfg v = .ok v') :
+    RowsAre CV.Gen.resolvers PathOK TPath.root v' :=
+  rowsAre_mono _ _ _ (fun hn out hi => image_pathOK cfg hwd hn out hi) _ _ (resolve_rows_are_resolved cfg v v' h)
+
+/-- non-vacuity: the rows in question exist and are string rows of these three resolvers -/
+example :
+    TPath.firstMatch CV.Gen.resolvers ["services", "a", "build", "context"] = some "absContextPath" ∧
+    TPath.firstMatch CV.Gen.resolvers ["services", "a", "build", "additional_contexts", "k"] = some "absContextPath" ∧
+    TPath.firstMatch CV.Gen.resolvers ["secrets", "s", "file"] = some "maybeUnixPath" ∧
+    TPath.firstMatch CV.Gen.resolvers ["configs", "c", "file"] = some "maybeUnixPath" ∧
+    TPath.firstMatch CV.Gen.resolvers ["services", "a", "label_file", "[]"] = some "absPath" := by decide
+
 end CV.Paths
 
 /-! # Round 6 — the clause of C12 about the composed pipeline (`Model/Pipeline.lean`: `Pipeline.load`, `Pipeline.loadY`)
@@ -219,6 +244,18 @@ theorem loadY_paths_clause (c : Cfg) (files : List (List Reset.YNode)) (r : Val.
     unfold loadYamlModelY at hk
     obtain ⟨dict, _, hm⟩ := Out.bind_ok _ _ _ hk
     exact clause_of_finishModel c dict k r hm hf
+
+/-- **C12's first sentence about `Pipeline.load`**: a successful load with path resolution and an absolute project
+directory hands on a model in which every string at a row of `absPath` / `absContextPath` / `maybeUnixPath` is absolute
+or exempt (`PathOK`), and every row node is an output of its resolver -/
+theorem load_rows_abs_or_exempt (c : Cfg) (docs : List Val.KVs) (r : Val.KVs) (h : load c docs = .ok r)
+    (hon : c.opts.resolvePaths = true) (hwd : isAbs c.paths.wd = true) :
+    ∃ m, finishLoad c (resolveEnvironment c.env m) = .ok r ∧
+      RowsAre CV.Gen.resolvers (ImageOf c.paths) TPath.root (.map m) ∧
+      RowsAre CV.Gen.resolvers PathOK TPath.root (.map m) := by
+  obtain ⟨d, m, hf, hon', _⟩ := load_paths_clause c docs r h
+  exact ⟨m, hf, Paths.resolve_rows_are_resolved c.paths d _ (hon' hon).1,
+    Paths.resolve_rows_abs_or_exempt c.paths hwd d _ (hon' hon).1⟩
 
 /-- with `SkipNormalization` the loaded model itself is (environment resolution of) the fixpoint: read off `PathsClause` -/
 theorem load_result_is_resolved (c : Cfg) (docs : List Val.KVs) (r : Val.KVs) (h : load c docs = .ok r)
